@@ -4,6 +4,7 @@
   `fromUTXOs` = Tx.FromUTXOs; `estimateDeficit` = Tx.estimateDeficit (C11).
 -/
 import GoBT.Fee.Model
+import GoBT.Fee.FromTx
 namespace GoBT.C12
 open GoBT GoBT.Fee
 
@@ -175,5 +176,67 @@ theorem fund_no_call_when_covered (fq : FeeQuote) (hist : List Response) (tx : T
 theorem deficit_arithmetic_exact_below_2_64 (tx : Tx) (fq : FeeQuote)
     (h : ∀ fee, estimateFeesPaid tx fq = .ok fee → totalOut tx + fee < 2 ^ 64) :
     estimateDeficit64 tx fq = estimateDeficit tx fq := estimateDeficit64_eq tx fq h
+
+/-! ### Tx.AddP2PKHInputsFromTx (inputs from the outputs of a previous transaction that pay to a key) -/
+
+open GoBT.Script
+
+/-- what an input added by AddP2PKHInputsFromTx looks like: it spends output `k` of the previous transaction, carries
+    that output's value and script, and that script pays to the key hash asked for -/
+def SpendsMatching (h prevID : Bytes) (outs : List Output) (base : Nat) (i : Input) : Prop :=
+  ∃ k o, outs[k]? = some o ∧ i.vout = base + k ∧ i.prevSats = o.sats ∧ i.prevScript = some o.script ∧
+    i.prevTxID = prevID ∧ i.unlocking = none ∧ i.sequence = 0xFFFFFFFF ∧ publicKeyHash o.script = some (.ok h)
+
+private theorem SpendsMatching.shift {h prevID : Bytes} {o : Output} {os : List Output} {base : Nat} {i : Input}
+    (hs : SpendsMatching h prevID os (base + 1) i) : SpendsMatching h prevID (o :: os) base i := by
+  obtain ⟨k, o', hk, hv, rest⟩ := hs
+  exact ⟨k + 1, o', by simpa using hk, by omega, rest⟩
+
+theorem fromTxLoop_spec (h prevID : Bytes) (outs : List Output) :
+    ∀ (base : Nat) (tx t : Tx) (ok : Bool), fromTxLoop h prevID base outs tx = some (t, ok) →
+      ∃ added, t = { tx with inputs := tx.inputs ++ added } ∧ ∀ i ∈ added, SpendsMatching h prevID outs base i := by
+  induction outs with
+  | nil =>
+    intro base tx t ok hh
+    simp [fromTxLoop] at hh
+    exact ⟨[], by simp [hh.1.symm], by simp⟩
+  | cons o os ih =>
+    intro base tx t ok hh
+    unfold fromTxLoop at hh
+    cases hp : publicKeyHash o.script with
+    | none => simp [hp] at hh
+    | some r =>
+      cases r with
+      | ok p =>
+        simp only [hp] at hh
+        by_cases hph : (p == h) = true
+        · rw [if_pos hph] at hh
+          by_cases hl : prevID.length = 32
+          · simp only [fromUTXOs, hl, ne_eq, not_true_eq_false, if_false] at hh
+            obtain ⟨added, ht, hall⟩ := ih (base + 1) _ t ok hh
+            refine ⟨({ prevTxID := prevID, vout := base, unlocking := none, sequence := 0xFFFFFFFF, prevSats := o.sats, prevScript := some o.script } : Input) :: added, ?_, ?_⟩
+            · simp [ht]
+            · intro i hi
+              rcases List.mem_cons.mp hi with rfl | hi
+              · exact ⟨0, o, by simp, by simp, rfl, rfl, rfl, rfl, rfl, by simpa [beq_iff_eq.mp hph] using hp⟩
+              · exact (hall i hi).shift
+          · simp [fromUTXOs, hl] at hh
+            exact ⟨[], by simp [hh.1.symm], by simp⟩
+        · rw [if_neg hph] at hh
+          obtain ⟨added, ht, hall⟩ := ih (base + 1) tx t ok hh
+          exact ⟨added, ht, fun i hi => (hall i hi).shift⟩
+      | errEmpty => simp [hp] at hh; exact ⟨[], by simp [hh.1.symm], by simp⟩
+      | errNotP2PKH => simp [hp] at hh; exact ⟨[], by simp [hh.1.symm], by simp⟩
+      | errDecode => simp [hp] at hh; exact ⟨[], by simp [hh.1.symm], by simp⟩
+
+/-- **Tx.AddP2PKHInputsFromTx**: whatever it returns, the transaction's own inputs and everything else are untouched and
+    every input it added spends an output of the previous transaction that pays to HASH160 of the given key, with
+    that output's index, value and script, the previous transaction's id, no unlocking script and a final sequence. -/
+theorem inputs_from_tx_spend_matching_outputs (H160 : Bytes → Bytes) (txidOf : Tx → Bytes) (tx pvs t : Tx) (key : Bytes)
+    (ok : Bool) (hh : addP2PKHInputsFromTx H160 txidOf tx pvs key = some (t, ok)) :
+    ∃ added, t = { tx with inputs := tx.inputs ++ added } ∧
+      ∀ i ∈ added, SpendsMatching (H160 key) (txidOf pvs) pvs.outputs 0 i :=
+  fromTxLoop_spec _ _ _ 0 tx t ok hh
+
 
 end GoBT.C12
